@@ -50,7 +50,7 @@ SITES = ["objective", "group", "fill_item", "matrix", "residual", "line"]
 
 
 def gen_fault(rng: random.Random) -> dict:
-    kind = rng.choices(["exc", "nonfinite", "region", "base"], weights=[70, 15, 10, 5])[0]
+    kind = rng.choices(["exc", "nonfinite", "region", "base", "region_nan"], weights=[66, 15, 9, 5, 5])[0]
     kspec = rng.choice(
         [
             {"mode": "abs", "k": 1},
@@ -79,9 +79,9 @@ def gen_fault(rng: random.Random) -> dict:
             "where": rng.choice(["all", "one"]),
             "flat": rng.randint(0, 50),
         }
-    if kind == "region":
+    if kind in ("region", "region_nan"):
         return {
-            "kind": "region",
+            "kind": kind,
             "between": [rng.randint(0, 8), rng.randint(0, 8)],
             "which": rng.randint(0, 5),
             "exc": rng.choice(EXC_CHOICES),
@@ -97,7 +97,14 @@ def gen_fault(rng: random.Random) -> dict:
 
 def generate(rng: random.Random, tier: str) -> dict:
     small = tier == "quick" or rng.random() < 0.5
-    spec = workloads.gen_spec(rng, for_fit=True, small=small)
+    nan_tolerant = rng.random() < 0.12
+    if nan_tolerant:
+        # models whose builtin megacomplexes do not reject non-finite parameters: the optimiser can wander to NaN
+        spec = workloads.gen_spec_oscillation_only(rng, for_fit=True)
+        if rng.random() < 0.5:
+            spec["scheme"]["optimization_method"] = "Levenberg-Marquardt"
+    else:
+        spec = workloads.gen_spec(rng, for_fit=True, small=small)
     use_driver = rng.random() < 0.25
     driver = None
     if use_driver:
@@ -112,18 +119,31 @@ def generate(rng: random.Random, tier: str) -> dict:
             else:
                 steps.append([round(rng.uniform(-0.2, 0.2), 4) for _ in range(4)])
         driver = {"steps": steps, "final": rng.randrange(n)}
-    mode = "all" if rng.random() < (0.5 if tier == "thorough" else 0.15) else "sample"
+    mode = "all" if rng.random() < (0.5 if (tier == "thorough" or nan_tolerant) else 0.15) else "sample"
     if mode == "all":
         site = rng.choice(SITES[:-1])
-        faults = [
-            {
-                "kind": "exc",
-                "kspec": {"mode": "all"},
-                "site": site,
-                "j": 1,
-                "exc": rng.choice(EXC_CHOICES),
-            }
-        ]
+        if rng.random() < (0.8 if nan_tolerant else 0.35):
+            # a non-finite matrix instead of an exception, at every evaluation k
+            faults = [
+                {
+                    "kind": "nonfinite",
+                    "kspec": {"mode": "all"},
+                    "j": 1,
+                    "value": rng.choice(["nan", "inf"]),
+                    "where": rng.choice(["all", "one"]),
+                    "flat": rng.randint(0, 50),
+                }
+            ]
+        else:
+            faults = [
+                {
+                    "kind": "exc",
+                    "kspec": {"mode": "all"},
+                    "site": site,
+                    "j": 1,
+                    "exc": rng.choice(EXC_CHOICES),
+                }
+            ]
     else:
         faults = [gen_fault(rng) for _ in range(rng.randint(2, 6))]
     invalid = []
@@ -410,7 +430,7 @@ class Run:
 
     # ------------------------------------------------------------------
     def concretise(self, fault, n, phases, xs, template, free_labels):
-        if fault["kind"] == "region":
+        if fault["kind"] in ("region", "region_nan"):
             # threshold between two values the fault-free trajectory visits
             if not free_labels or n < 2:
                 return []
@@ -433,7 +453,7 @@ class Run:
             if v0 == theta:
                 return []
             return [
-                {"kind": "region", "param": label, "theta": theta, "dir": direction, "exc": fault["exc"]}
+                {"kind": fault["kind"], "param": label, "theta": theta, "dir": direction, "exc": fault["exc"]}
             ]
         out = []
         for k in resolve_k(fault["kspec"], n, phases):
@@ -509,7 +529,7 @@ class Run:
                 )
             return
 
-        if fault["kind"] == "nonfinite":
+        if fault["kind"] in ("nonfinite", "region_nan"):
             if exc is not None and not raise_exc and not isinstance(exc, InitialParameterError):
                 rec.violate(
                     "C15/not-contained",
@@ -566,8 +586,9 @@ class Run:
         rec, sm = self.rec, self.seams
         got = {p.label: p.value for p in result.optimized_parameters.all() if p.expression is None}
         candidates = [("initial", initial_values)]
-        for i, (x, done) in enumerate(zip(sm.xs, sm.completed)):
-            if done:
+        for i, (x, done, finite) in enumerate(zip(sm.xs, sm.completed, sm.finite)):
+            # an evaluation that returned non-finite numbers is the non-exception form of a failed evaluation
+            if done and finite:
                 candidates.append((f"eval{i + 1}", values_from_x(template, free_labels, x)))
         match = [name for name, vals in candidates if close_values(vals, got)]
         if not match:
